@@ -107,6 +107,9 @@ def run(ctx, replay=None):
             ctx.sample({"program": prog})
         if i % 3 == 0:
             corr.append(prog)
+    for i in range(ctx.scale(200, 2500)):
+        prog, g = P.gen_program(rng, depth=rng.randint(2, ctx.scale(6, 9)), ops=P.MINI_OPS, zero_axes=0.0, basic_only=True)
+        corr.append(prog)
     block_correspondence(ctx, corr)
 
 
@@ -116,7 +119,7 @@ def block_correspondence(ctx, progs):
 
     reqs = []
     for prog in progs:
-        tok = PC.encode(prog)
+        tok = PC.encode(prog, {k: v.shape for k, v in P.run_np(prog).items()})
         if tok is None:
             continue
         env, exc = PC.build(prog)
@@ -144,5 +147,5 @@ def block_correspondence(ctx, progs):
     if all(o == "bad-op" for o in outs):
         ctx.notes["ex_driver"] = "not available in this build"
         return
-    live = [(r, i) for (r, i), o in zip(reqs, outs) if not (o.startswith("err unsupported") or o == "bad-op")]
+    live = [(r, i) for (r, i), o in zip(reqs, outs) if not (o.startswith("err unsupported") or o.startswith("err illformed") or o == "bad-op")]
     ctx.correspond("expr(blockDen)", live)
